@@ -340,7 +340,7 @@ void verif_run(verif::Args const& a, verif::Evidence& ev)
               "for the 1-D iterator when w*h <= 40 (advance, distance, +=, [], all six relational operators, x_pos/y_pos, --(++it), associativity lattice), of all offset pairs of every row's x-iterator and every column's y-iterator, "
               "all nine access paths per pixel, the 1-D-traversability predicate, locator moves with relative access / cached locations / axis iterators / y_distance_to in a 5x5 neighbourhood. "
               "non-trivial: both dims >= 2 and the view is padded, stepped, sub-imaged or over a guard buffer; distinct = (cfg, root, shape, program, tail, walk).";
-    int cases = th ? 120000 : 30000;
+    int cases = th ? 400000 : 30000;
     verif::rc_search(ev, a, "nav", cases, 60, [&] { return gen_case(th); }, run_case, nontrivial, {"cfg", "rk", "w", "h", "ap", "prog", "tail", "post", "walk", "start"});
 }
 
